@@ -225,6 +225,32 @@ func (n *Node) build(genDoc *types.GenesisDoc, key crypto.PrivKey, opt NodeOpt) 
 	}
 }
 
+// NewNodeFrom assembles a node on existing databases and an existing
+// application (used to replay a WAL into a fresh consensus state).
+func NewNodeFrom(idx int, genDoc *types.GenesisDoc, key crypto.PrivKey, opt NodeOpt, blockDB, stateDB, evDB dbm.DB, app *recapp.App) *Node {
+	n := &Node{Idx: idx, BlockDB: blockDB, StateDB: stateDB, EvDB: evDB, App: app, PreState: map[int64]sm.State{}}
+	n.build(genDoc, key, opt)
+	return n
+}
+
+// CopyMemDB clones a database into a fresh MemDB.
+func CopyMemDB(src dbm.DB) dbm.DB {
+	dst := dbm.NewMemDB()
+	it, err := src.Iterator(nil, nil)
+	if err != nil {
+		panic(err)
+	}
+	defer it.Close()
+	for ; it.Valid(); it.Next() {
+		k := append([]byte{}, it.Key()...)
+		v := append([]byte{}, it.Value()...)
+		if err := dst.Set(k, v); err != nil {
+			panic(err)
+		}
+	}
+	return dst
+}
+
 // Close releases goroutines held by the node (event bus, ABCI clients).
 func (n *Node) Close() {
 	_ = n.Bus.Stop()
